@@ -42,8 +42,10 @@ fn judge_request(case: &NetCase, obs: &Obs, id: usize) -> Option<(String, String
             }
         }
         ClientOutcome::BodyErr(e) => Some(("response-body-broken".into(), format!("{desc}: response body failed at {t} ms: {e}"))),
-        ClientOutcome::Ok { status, id_hdr, origin_hdr, body_ok, body_len, .. } => {
-            if id_hdr != Some(id) {
+        ClientOutcome::Ok { status, id_hdr, origin_hdr, body_ok, body_len, hdr_problem, .. } => {
+            if let Some(hp) = hdr_problem.filter(|_| id_hdr == Some(id)) {
+                Some(("response-headers-altered".into(), format!("{desc}: {hp}")))
+            } else if id_hdr != Some(id) {
                 Some(("response-for-another-request".into(), format!("{desc} received the response produced for request {id_hdr:?}")))
             } else if origin_hdr != Some(srv) {
                 Some(("response-from-wrong-origin".into(), format!("{desc} was answered by server {origin_hdr:?}")))
